@@ -86,9 +86,17 @@ pub fn run(ctx: &Ctx) -> i32 {
         st.count("prefix_sharing_families");
         check_case(ctx, st, tcs, Settings::with(REP, m, l));
     });
+    // repeated multi-code-point graphemes and repeated blanks x presentation / class settings
+    let mut det = gen::cluster_repeat_cases();
+    det.extend(gen::blank_repeat_cases());
+    let det_settings = [0, ESC, DIGIT, WORD, NWORD, VERB, CAP, CI | ESC, VERB | CAP, NOEND];
+    par_for(&ctx.run, det.len() * det_settings.len(), |i, st| {
+        st.count("cluster_and_blank_repeat_cases");
+        check_case(ctx, st, &det[i % det.len()], Settings::new(REP | det_settings[i / det.len()]));
+    });
     // random repeat-rich families x other settings
     let n = if ctx.thorough { 300_000 } else { 12_000 };
-    let names = ["ab", "abc", "meta", "graph", "astral", "classes", "case", "ws"];
+    let names = ["ab", "abc", "meta", "graph", "astral", "classes", "case", "ws", "clusters"];
     let alphabets: Vec<(String, Vec<String>)> = names.iter().map(|a| (a.to_string(), gen::alphabet(a))).collect();
     par_for(&ctx.run, n, |i, st| {
         let mut rng = Rng::new(seed, 0x50_0000 + i as u64);
